@@ -1,8 +1,11 @@
 #!/bin/bash
 # seedtest.sh <prop> <patch.diff> [more props...]: apply a seeded change to /repo, run the quick check(s), undo.
+# Evidence files are saved and restored: evidence must describe the unchanged tree.
 P="$1"; PATCH="$2"; shift 2
 cd /repo || exit 2
 if [ -n "$(git status --porcelain)" ]; then echo "REFUSING: /repo has uncommitted changes (commit them first)"; exit 2; fi
+rm -rf /verif/.work/evidence.bak; cp -r /verif/evidence /verif/.work/evidence.bak
 git apply "$PATCH" || { echo "patch does not apply"; exit 2; }
 for p in $P "$@"; do (cd /verif && ./check $p quick 2>&1 | grep -E "^VIOLATION|^property|KNOWN|BROKEN" | cut -c1-260); done
-git -C /repo checkout -- . 
+git -C /repo checkout -- .
+rm -rf /verif/evidence; mv /verif/.work/evidence.bak /verif/evidence
